@@ -81,13 +81,23 @@ Record case := {
 
 Definition failing_provider : provider := {| p_domain := fun _ _ => None; p_genesis := fun _ => None |}.
 
-Definition model_out (c : case) : ores :=
-  let P := if c_dom_fail c then failing_provider else spec_provider Hc (c_chain c) in
-  match run Hc psig PZero P rec_env (c_svc c) (c_req c) with
+(* the node as it answers during the case's request *)
+Definition case_provider (c : case) : provider :=
+  if c_dom_fail c then failing_provider else spec_provider Hc (c_chain c).
+
+Definition to_ores (r : res (list psig)) : ores :=
+  match r with
   | Ok sigs => OOk sigs
   | Err => OErr
   | Panic => OPanic
   end.
+
+(* Every case is ONE request; the harness makes it to a service fresh from New, or as a later
+   request of a session on one service instance (sequentially or from several goroutines at once).
+   In both situations the model's prediction is that of the request made alone (for a session
+   this is [run_session], lemma [session_cases_agree] below). *)
+Definition model_out (c : case) : ores :=
+  to_ores (run Hc psig PZero (case_provider c) rec_env (c_svc c) (c_req c)).
 
 Definition ores_eqb (x y : ores) : bool :=
   match x, y with
@@ -162,3 +172,20 @@ Lemma P_b_sound c sigs :
     (s <> PZero /\ nth_error (c_verified c) i = Some true /\
      nth_error (c_roots c) i = Some (spec_signing_root Hc (c_chain c) m)).
 Proof. unfold P_b. intros Hp Ho. rewrite Ho in Hp. apply sigs_ok_sound. exact Hp. Qed.
+
+(* The cases that the harness prints for the requests of one session (same service [Sv]; each with
+   the node as it answered that request) agree one by one exactly when the session model
+   [run_session] on that one service predicts the observed outcomes in order. *)
+Lemma session_cases_agree (Sv : service) (cs : list case) :
+  Forall (fun c => c_svc c = Sv) cs ->
+  forallb agree cs = true ->
+  Forall2 (fun r c => ores_eqb (to_ores r) (c_out c) = true)
+          (run_session Hc psig PZero rec_env Sv (map (fun c => (case_provider c, c_req c)) cs)) cs.
+Proof.
+  induction cs as [|c r IH]; intros Hsv Hag; cbn [map run_session handle fst snd].
+  - constructor.
+  - inversion Hsv as [|? ? Hc0 Hr]; subst. cbn [forallb] in Hag. apply andb_true_iff in Hag as [Hc1 Hr1].
+    constructor.
+    + exact Hc1.
+    + apply IH; assumption.
+Qed.
